@@ -17,16 +17,54 @@ def Adm : Timer → List TEv → Prop
 def Timer.WF (tm : Timer) : Prop := tm.laL ≤ tm.sL ∧ tm.laR ≤ tm.sR ∧ 0 < tm.T
 
 theorem wf_step (tm : Timer) (e : TEv) (h : tm.WF) (ha : admissible tm e = true) : (tstep tm e).WF := by
-  sorry
+  exact wft_step h ha
 
-/-- **Never early**: if the tunnel is closed by the idle timer at time `c`, then neither
-direction has transferred anything during `[c - T, c]` - equivalently, every recorded transfer
-`t` satisfies `t + T < c`.  Hence a tunnel that transfers data at least once every `T` (in either
-direction) is never closed by the idle timer. -/
-theorem idle_not_early (tm : Timer) (es : List TEv) (h0 : tm.expired = none) (hw : tm.WF) (ha : Adm tm es)
+
+/-! A first formulation of "never early" quantified over every transfer of an admissible trace and
+was refuted by the proof attempt: events listed *after* the closing time are admissible but never
+recorded (`tm = ⟨10, 0, 0, 5, 5, none⟩`, `[.fire .left, .progress .left 15]` closes at 15).  The
+statements below restrict the transfers to those recorded while the tunnel was still open. -/
+
+theorem adm_iff_admAll (tm : Timer) (es : List TEv) : Adm tm es ↔ AdmAll tm es := by
+  induction es generalizing tm with
+  | nil => simp [Adm, AdmAll]
+  | cons e es ih => simp [Adm, AdmAll, ih]
+
+/-- the part of `idle_not_early` about the initial marks holds as stated -/
+theorem idle_not_early_marks (tm : Timer) (es : List TEv) (h0 : tm.expired = none) (hw : tm.WF) (ha : Adm tm es)
     (c : Nat) (hc : (trun tm es).expired = some c) :
-    (∀ d t, TEv.progress d t ∈ es → t + tm.T < c) ∧ tm.laL + tm.T < c ∧ tm.laR + tm.T < c := by
-  sorry
+    tm.laL + tm.T < c ∧ tm.laR + tm.T < c :=
+  expiry_after_marks es h0 hw ((adm_iff_admAll tm es).1 ha) c hc
+
+/-- **Never early**: if the tunnel is still open after `es` and is closed by the idle timer at `c`
+after `es ++ es'`, then neither direction transferred anything during `[c - T, c]`: every transfer
+`t` in `es` satisfies `t + T < c`.  Hence a tunnel that transfers data at least once every `T` (in
+either direction) is never closed by the idle timer. -/
+theorem idle_not_early (tm : Timer) (es es' : List TEv) (h0 : tm.expired = none) (hw : tm.WF)
+    (ha : Adm tm (es ++ es')) (hopen : (trun tm es).expired = none)
+    (c : Nat) (hc : (trun tm (es ++ es')).expired = some c) :
+    (∀ d t, TEv.progress d t ∈ es → t + tm.T < c) ∧ tm.laL + tm.T < c ∧ tm.laR + tm.T < c :=
+  ⟨progress_before_expiry es es' h0 hw ((adm_iff_admAll tm _).1 ha) hopen c hc,
+   expiry_after_marks _ h0 hw ((adm_iff_admAll tm _).1 ha) c hc⟩
+
+/-- **Never early** (corrected, minimal change): the closing event is the last one of the trace -/
+theorem idle_not_early_at_close (tm : Timer) (es : List TEv) (e : TEv) (hw : tm.WF)
+    (ha : Adm tm (es ++ [e])) (hopen : (trun tm es).expired = none)
+    (c : Nat) (hc : (trun tm (es ++ [e])).expired = some c) :
+    (∀ d t, TEv.progress d t ∈ es ++ [e] → t + tm.T < c) ∧ tm.laL + tm.T < c ∧ tm.laR + tm.T < c := by
+  have h0 : tm.expired = none := by
+    cases hx : tm.expired with
+    | none => rfl
+    | some x => rw [trun_expired es (by simp [hx]), hx] at hopen; cases hopen
+  have hmain := idle_not_early tm es [e] h0 hw ha hopen c hc
+  refine ⟨fun d t hm => ?_, hmain.2⟩
+  rcases List.mem_append.1 hm with hm | hm
+  · exact hmain.1 d t hm
+  · -- the last event closes the tunnel, so it is a `fire`, not a `progress`
+    simp only [List.mem_singleton] at hm
+    subst hm
+    rw [trun_append, trun_cons, trun_nil] at hc
+    cases d <;> simp [tstep, hopen] at hc
 
 /-- **Closed no later than 2T after the last activity**: from the state right after the last
 transfer (at time `a`, on either direction), if nothing is transferred any more the timers fire
@@ -35,14 +73,14 @@ theorem idle_bound_2T (tm : Timer) (a : Nat) (h0 : tm.expired = none) (hw : tm.W
     (ha : a = max tm.laL tm.laR)
     (hs : tm.sL ≤ a ∧ tm.sR ≤ a ∧ a ≤ tm.sL + tm.T ∧ a ≤ tm.sR + tm.T) :
     ∃ n c, n ≤ 3 ∧ (idleRun n tm).expired = some c ∧ a + tm.T < c ∧ c ≤ a + 2 * tm.T := by
-  sorry
+  exact idle_bound tm a h0 hw ha hs
 
 /-- traffic exactly at the deadline keeps the tunnel open: a transfer at `s + T` is admissible
 progress and resets the direction's timer -/
 theorem progress_at_deadline_keeps_open (tm : Timer) (h0 : tm.expired = none) :
     (tstep tm (.progress .left (tm.sL + tm.T))).expired = none ∧
     (tstep tm (.progress .left (tm.sL + tm.T))).laL = tm.sL + tm.T := by
-  sorry
+  simp [tstep, h0]
 
 example : (idleRun 2 ⟨10, 0, 0, 0, 0, none⟩).expired = some 20 := by decide
 example : (trun ⟨10, 0, 0, 0, 0, none⟩ [.progress .right 5, .fire .left, .fire .left]).expired = some 20 := by decide
